@@ -135,6 +135,16 @@ def c04_inputs(rng, quick):
         out += [f"{D}e{e10}", f"{D + 1}e{e10}", f"{D - 1}e{e10}", f"{str(D)[0]}.{str(D)[1:]}e{e10 + 18}"]
     for D, e10, b in hard_midpoints(rng, range(-330, 290, 7 if quick else 1), 40 if quick else 300, 1 if quick else 4, nd=17):
         out += [f"{D}e{e10}", f"{str(D)[:3]}.{str(D)[3:]}e{e10 + 14}"]
+    # hardest cases per table row by continued fractions: decimals within ~1e-17 .. 1e-20 ulp of a midpoint
+    seen_cf = set()
+    for D, e10, b, err in cf_hard_cases(range(-342, 292), keep=1 if quick else 5):
+        if (D, e10) in seen_cf:
+            continue
+        seen_cf.add((D, e10))
+        ds = str(D)
+        out += [f"{ds}e{e10}", f"{ds[0]}.{ds[1:]}e{e10 + len(ds) - 1}" if len(ds) > 1 else f"{ds}.0e{e10}"]
+        if not quick:
+            out += [f"{D + 1}e{e10}", f"{D - 1}e{e10}", f"0.{ds}e{e10 + len(ds)}"]
     # exact fast path edges: mantissa below 2^53 with exponent 22..37 and -22
     for m in [(1 << 52) - 1, (1 << 53) - 1, 4503599627370495, 1234567890123457, 9007199254740991, 9007199254740993]:
         for e10 in (0, 1, 15, 22, 23, 29, 30, 36, 37, 38, -1, -22, -23):
@@ -189,6 +199,10 @@ def c07_inputs(rng, quick):
     for D, e10, b in hard_midpoints(rng, range(-340, 292, 3 if quick else 1), 30 if quick else 300, 2 if quick else 8, nd=17):
         bits += [b, b + 1]
     for D, e10, b in hard_midpoints(rng, range(-340, 292, 5 if quick else 1), 30 if quick else 300, 1 if quick else 6, nd=16):
+        bits += [b, b + 1]
+    # the two doubles adjacent to a midpoint that a 16..19-digit decimal hits within ~1e-17 ulp (continued fractions): the
+    # decimal is barely inside or outside their rounding intervals, so the low word of the decade's table entry decides
+    for D, e10, b, err in cf_hard_cases(range(-342, 292), digit_ranges=((14, 15), (15, 16), (16, 17), (17, 18)) if not quick else ((15, 16), (16, 17), (17, 18)), keep=1 if quick else 10):
         bits += [b, b + 1]
     for e in range(-1074, 1024, 9 if quick else 1):          # powers of two and their neighbours (irregular boundary)
         b = d2b(2.0 ** e)
@@ -249,3 +263,77 @@ def c08_inputs(rng, quick):
         if 0 < v <= 2 ** 63:
             out.append("-" + str(v))
     return out
+
+
+# ---------------------------------------------------------------------------------------------------------------
+# Hardest cases per power-of-ten table row, by continued fractions (inputs only).
+# A decimal D * 10^e10 lies extremely close to the midpoint (2m+1) * 2^(q-1) of two adjacent doubles iff D / (2m+1) is
+# an extremely good rational approximation of alpha = 2^(q-1) / 10^e10.  Convergents and semiconvergents of alpha (and
+# their odd multiples) with odd denominator M = 2m+1 in [2^53, 2^54) give such pairs; the distance is of the order of
+# 2^-60 ulp, far below what the high 64 bits of a table row can resolve, so the row's low word decides the rounding
+# (number parsing, C04) and the interval test of the two adjacent doubles (shortest printing, C07).
+def _cf_pairs(num, den, Mlo, Mhi, Dlo, Dhi, per=3):
+    out = []
+    p0, q0, p1, q1 = 0, 1, 1, 0
+    a, b = num, den
+    steps = 0
+    while b and steps < 400:
+        steps += 1
+        t = a // b
+        a, b = b, a - t * b
+        # semiconvergents (p0 + j p1) / (q0 + j q1), j = 1..t  (j = t is the next convergent)
+        if q1 > 0:
+            jlo = max(1, -((q0 - Mlo) // q1))
+            jhi = min(t, (Mhi - 1 - q0) // q1)
+            cnt = 0
+            for j in ([jlo, jlo + 1, jhi - 1, jhi] if jhi - jlo > 3 else range(jlo, jhi + 1)):
+                if j < 1 or j > t or j < jlo or j > jhi:
+                    continue
+                M, D = q0 + j * q1, p0 + j * p1
+                if M % 2 == 1 and Mlo <= M < Mhi and Dlo <= D < Dhi:
+                    out.append((D, M))
+                    cnt += 1
+        p0, q0, p1, q1 = p1, q1, t * p1 + p0, t * q1 + q0
+        if q1 >= Mhi:
+            break
+        # odd multiples of the convergent p1/q1
+        if q1 % 2 == 1 and q1 > 1:
+            tlo, thi = -(-Mlo // q1), (Mhi - 1) // q1
+            ts = [x for x in {tlo | 1, (tlo | 1) + 2, ((tlo + thi) // 2) | 1, (thi - 1) | 1} if tlo <= x <= thi]
+            for tt in ts[:per]:
+                M, D = tt * q1, tt * p1
+                if Dlo <= D < Dhi:
+                    out.append((D, M))
+    return out
+
+
+def cf_hard_cases(e10s, digit_ranges=((18, 19), (16, 17), (5, 8)), keep=4):
+    """[(D, e10, bits_of_the_double_below_the_midpoint, err_in_ulp)] - the 'keep' closest above and below per row and range."""
+    res = []
+    for e10 in e10s:
+        for ndlo, ndhi in digit_ranges:
+            Dlo, Dhi = 10 ** (ndlo - 1), min(10 ** ndhi, 2 ** 64)
+            cands = []
+            # binades q whose midpoints M * 2^(q-1), M ~ 2^53.5, fall in [Dlo, Dhi) * 10^e10
+            import math
+            lo2 = math.log2(Dlo) + e10 * math.log2(10) - 54
+            hi2 = math.log2(Dhi) + e10 * math.log2(10) - 53
+            for q1 in range(int(math.floor(lo2)), int(math.ceil(hi2)) + 1):     # q1 = q - 1
+                q = q1 + 1
+                be = q + 1075
+                if not (1 <= be <= 2046):
+                    continue
+                num = (1 << q1 if q1 >= 0 else 1) * (10 ** (-e10) if e10 < 0 else 1)
+                den = (1 << -q1 if q1 < 0 else 1) * (10 ** e10 if e10 > 0 else 1)
+                for D, M in _cf_pairs(num, den, (1 << 53) + 1, 1 << 54, Dlo, Dhi):
+                    m = (M - 1) // 2
+                    if not ((1 << 52) <= m < (1 << 53)):
+                        continue
+                    # signed distance D - alpha*M in units of 1/den, and one ulp = 2*alpha = 2*num/den
+                    sd = D * den - M * num
+                    cands.append((float(Fraction(abs(sd), 2 * num)), 1 if sd > 0 else (-1 if sd < 0 else 0), D, (be << 52) | (m - (1 << 52))))
+            for sign in (1, -1, 0):
+                sel = sorted(c for c in cands if c[1] == sign)[:keep]
+                for err, sg, D, bits in sel:
+                    res.append((D, e10, bits, err * sg))
+    return res
